@@ -20,6 +20,7 @@
 #include "json.h"
 
 #include <fstream>
+#include <limits>
 
 #include <tbox/base/json.hpp>
 #include <tbox/base/assert.h>
@@ -63,6 +64,15 @@ bool Get(const Json &js,int &field_value)
 {
     if (!js.is_number_integer())
         return false;
+    //! 超出 int 范围的整数不能截断后当成另一个数返回（比如 4294967297 会变成 1）
+    if (js.is_number_unsigned()) {
+        if (js.get<uint64_t>() > static_cast<uint64_t>(std::numeric_limits<int>::max()))
+            return false;
+    } else {
+        auto value = js.get<int64_t>();
+        if (value < std::numeric_limits<int>::min() || value > std::numeric_limits<int>::max())
+            return false;
+    }
     field_value = js.get<int>();
     return true;
 }
